@@ -271,6 +271,20 @@ Definition involves_unknown (x y : sp) : bool :=
   | Dir _, Named b | Named b, Dir _ => mem (ns_id b) (unknown_ids S)
   | _, _ => false
   end.
+(* DirectionalSobolevSpace.__contains__ for an element whose space is the named space e *)
+Definition contains_dir (b : list ord) (e : nspace) : res :=
+  match eq_res S (Named e) (Dir b) with
+  | RB true => RB true
+  | RErr => RErr
+  | _ => RB (forallb (fun o => match dir_item S o with Some i => mem i (ns_parents e) | None => false end) b)
+  end.
+(* known-finding class C: the element's space equals the space of some but not all directions *)
+Definition some_not_all_equal (b : list ord) (e : nspace) : bool :=
+  existsb (fun o => match dir_item S o with Some i => Nat.eqb i (ns_id e) | None => false end) b
+  && negb (forallb (fun o => match dir_item S o with Some i => Nat.eqb i (ns_id e) | None => false end) b).
+Definition membership_dir_ok (ds : list (list ord)) (es : list nspace) : bool :=
+  forallb (fun b => forallb (fun e =>
+    implb (negb (some_not_all_equal b e)) (r_eqb (contains_dir b e) (RB (sub_spec (Named e) (Dir b))))) es) ds.
 Definition pair_ok (x y : sp) : bool :=
   r_eqb (py_lt S x y) (RB (lt_spec x y)) && r_eqb (py_gt S x y) (RB (lt_spec y x))
   && r_eqb (py_le S x y) (RB (sub_spec x y)) && r_eqb (py_ge S x y) (RB (sub_spec y x))
